@@ -368,6 +368,8 @@ def gen_case(rng: random.Random, family=None):
         if rng.random() < 0.4:
             case["aliases"] = ["ta", "tb"]
     case["load_form"] = rng.choice(LOAD_FORMS)
+    # the model is saved again after every training step: to a path of its own, or (as users do) over the file of the previous save
+    case["same_path"] = rng.random() < 0.5
     if not all_dict(case):
         if rng.random() < 0.3:
             case["settings_form"] = "dict_holding_creators"
@@ -694,7 +696,7 @@ def snapshot(case, linker, sdir, idx, portable):
     import pathlib
 
     out = {"state": dump_state(linker)}
-    p1 = os.path.join(sdir, f"m{idx}_gen1.json")
+    p1 = os.path.join(sdir, "m_gen1.json" if case.get("same_path") else f"m{idx}_gen1.json")
     linker.misc.save_model_to_json(pathlib.Path(p1) if case.get("load_form") == "Path" else p1, overwrite=True)
     text1 = open(p1, encoding="utf-8").read()
     out["json1"] = json.loads(text1)
@@ -1173,7 +1175,7 @@ def compare(ctx, cases, drv):
         ctx.count("history_len", len(c["history"])); ctx.count("n_rules", len(c["rules"])); ctx.count("has_tf", n_tf > 0)
         ctx.count("salted_or_exploding", any("salt" in x or "explode" in x for x in c["rules"]))
         ctx.count("custom_prefix", any(k.endswith("prefix") for k in c["opts"])); ctx.count("uid_column", c["uid"])
-        ctx.count("link_type", c["link_type"]); ctx.count("load_form", c.get("load_form", "path"))
+        ctx.count("link_type", c["link_type"]); ctx.count("load_form", c.get("load_form", "path")); ctx.count("saved_over_the_previous_file", bool(c.get("same_path")))
         ctx.count("settings_form", "plain dict" if all_dict(c) else c.get("settings_form", "SettingsCreator"))
         ctx.count("rule_form", "+".join(sorted({x["form"] for x in c["rules"]})) or "none")
         if c["link_type"] != "dedupe_only":
